@@ -10,6 +10,10 @@ Facts about jsonrpclib/threadpool.py — EventData / FutureResult (C16).
   notifyContains        __notify: the callback is called inside try / except <class> that logs and does not re-raise
   executeShape          execute: try(call) / except Exception(raise_exception, raise) / else(set) / finally(lock, notify)
   waitGuard             EventData.wait consults __exception only when the event wait returned True
+  notifyGuard           __notify: shape of the test that guards the call of the callback ("isNotNone" for
+                        `callback is not None`; "truthy" for `if callback:` -- a falsy callable would be skipped)
+  waitTimeoutForwarded  FutureResult.result passes its `timeout` parameter unchanged to `_done_event.wait`, and
+                        EventData.wait passes its own unchanged to `self.__event.wait` (no `timeout or None`)
 """
 import ast
 
@@ -208,6 +212,68 @@ def _wait_guard(fn):
     return None
 
 
+def _calls_param(node, param):
+    return any(isinstance(c, ast.Call) and isinstance(c.func, ast.Name) and c.func.id == param for c in ast.walk(node))
+
+
+def _guard_shape(test, param):
+    if isinstance(test, ast.Compare) and len(test.ops) == 1 and isinstance(test.left, ast.Name) \
+            and test.left.id == param and isinstance(test.comparators[0], ast.Constant) \
+            and test.comparators[0].value is None:
+        op = test.ops[0]
+        if isinstance(op, ast.IsNot):
+            return "isNotNone"
+        if isinstance(op, ast.NotEq):
+            return "neNone"
+    if isinstance(test, ast.Name) and test.id == param:
+        return "truthy"
+    try:
+        return "other:" + ast.unparse(test)[:50]
+    except Exception:  # pragma: no cover
+        return "other"
+
+
+def _notify_guard(fn):
+    """Shape of the innermost `if` whose body contains the call of the callback; "unguarded" when there is none."""
+    params = [a.arg for a in fn.args.args if a.arg != "self"]
+    if not params or not _calls_param(fn, params[0]):
+        return None
+    param = params[0]
+
+    def search(body, guard):
+        for st in body:
+            if isinstance(st, ast.If):
+                if any(_calls_param(x, param) for x in st.body):
+                    return search(st.body, _guard_shape(st.test, param))
+                if any(_calls_param(x, param) for x in st.orelse):
+                    return "other:else-branch"
+            elif _calls_param(st, param):
+                for field in ("body", "orelse", "finalbody"):
+                    sub = getattr(st, field, None)
+                    if isinstance(sub, list) and any(_calls_param(x, param) for x in sub):
+                        return search(sub, guard)
+                for h in getattr(st, "handlers", []) or []:
+                    if any(_calls_param(x, param) for x in h.body):
+                        return search(h.body, guard)
+                return guard
+        return guard
+    return search(fn.body, "unguarded")
+
+
+def _forwards_timeout(fn, receiver):
+    """The single `<receiver>.wait(...)` call of fn gets fn's own timeout parameter, as it is (by position or keyword)."""
+    params = [a.arg for a in fn.args.args if a.arg != "self"]
+    if not params:
+        return None
+    calls = [c for c in ast.walk(fn) if isinstance(c, ast.Call) and isinstance(c.func, ast.Attribute)
+             and c.func.attr == "wait" and receiver(c.func.value)]
+    if len(calls) != 1:
+        return None
+    c = calls[0]
+    args = list(c.args) + [k.value for k in c.keywords if k.arg == "timeout"]
+    return len(args) == 1 and isinstance(args[0], ast.Name) and args[0].id == params[0]
+
+
 def _str_list(xs):
     return lean_list([lean_str(x) for x in xs])
 
@@ -220,6 +286,7 @@ def facts(src):
     ev_set = src.func("threadpool", "EventData.set")
     ev_raise = src.func("threadpool", "EventData.raise_exception")
     ev_wait = src.func("threadpool", "EventData.wait")
+    fut_result = src.func("threadpool", "FutureResult.result")
     regions = None
     if setcb is not None and execute is not None:
         t = _find_try(execute)
@@ -259,4 +326,18 @@ def facts(src):
     out.append(Fact(
         "waitGuard", "Bool", None if wg is None else lean_bool(wg),
         PROPERTIES, "EventData.wait: __exception is consulted only when the event wait returned True", json_value=wg))
+    ng = _notify_guard(notify) if notify is not None else None
+    out.append(Fact(
+        "notifyGuard", "String", None if ng is None else lean_str(ng),
+        PROPERTIES, "__notify: the test guarding the call of the callback (identity with None, not truthiness)", json_value=ng))
+    fw = None
+    if fut_result is not None and ev_wait is not None:
+        f1 = _forwards_timeout(fut_result, lambda v: isinstance(v, ast.Attribute) and v.attr == "_done_event")
+        f2 = _forwards_timeout(ev_wait, lambda v: _self_attr(v) == "__event")
+        if f1 is not None and f2 is not None:
+            fw = (bool(f1), bool(f2))
+    out.append(Fact(
+        "waitTimeoutForwarded", "Bool × Bool", None if fw is None else "(%s, %s)" % (lean_bool(fw[0]), lean_bool(fw[1])),
+        PROPERTIES, "result(timeout) -> EventData.wait(timeout) -> Event.wait(timeout): the timeout is forwarded unchanged",
+        json_value=None if fw is None else list(fw)))
     return out
